@@ -1,14 +1,585 @@
-//! C10 harness (stub).
+//! C10: an interrupted or reopened on-disk index never returns wrong answers.
+//!
+//! Request lines (one case = one collection + one index directory):
+//!   case <i> coll=<d0>/<d1>/… base=<b> via=create|update threads=<t> how=kill|abort|exit q=<hashes>
+//!        d_i = comma separated hashes (`-` = empty dataset); the first <b> datasets are indexed
+//!        by a clean build before the build under test starts (via=update: the build under test is
+//!        `open` + `update(collection)`, otherwise `create(dir, collection)` on the same directory)
+//!   crash <n>        run the build in a child process that kills itself at hook point n of that run;
+//!                    answer: the durable state left behind (threads=1), or the verdict of the
+//!                    marker invariants on it (threads>1, where the interleaving is not determined)
+//!   crashc <us>      child killed <us> microseconds after compaction started; answer: durable state
+//!   resume           re-run the same build in-process to completion; answer: the full observation
+//!   resumec          the same in a fresh child process
+//!   obs              the full observation
+//!   reopen <seq>     seq = comma separated flush|close|openro|openrw|intern|move; answer:
+//!                    per-step results, `|`, the full observation
+//!
+//! Full observation = H (scan of the HASHES column family), P (PROCESSED), M (version / manifest
+//! rows / storage spec), X (number of keys in STORAGE), C (counter_for_query of q), G (gather of q),
+//! S (collection().sig_for_dataset(i) for every i: name, hashes, md5 equal to the original's).
+use camino::Utf8PathBuf;
+use sourmash::index::revindex::verif_hooks as vh;
+use sourmash::index::revindex::{RevIndex, RevIndexOps};
+use sourmash::signature::Signature;
+use sourmash::sketch::Sketch;
+use std::collections::BTreeMap;
+use std::path::{Path, PathBuf};
+use verif_harness::index_util::*;
 use verif_harness::*;
 
-fn gen(_a: &Args) {
-    let mut o = Out::new();
-    o.case("stub");
+#[path = "c10_child.rs"]
+mod child;
+
+// ------------------------------------------------------------------------------------ generator
+
+fn show_coll(c: &[Vec<u64>]) -> String {
+    c.iter().map(|d| show_nats(d.iter().copied())).collect::<Vec<_>>().join("/")
 }
 
-fn step(_: &mut (), ws: &[&str]) -> String {
+/// number of hook points of a from-scratch build of datasets `from..` (writes + 1 for compaction)
+fn points(c: &[Vec<u64>], from: usize) -> usize {
+    c[from..].iter().map(|d| d.len() + 1).sum::<usize>() + 3 + 1
+}
+
+fn rand_coll(r: &mut Rng, nd: usize, maxh: usize, universe: u64) -> Vec<Vec<u64>> {
+    (0..nd)
+        .map(|_| {
+            let k = if r.chance(1, 8) { 0 } else { r.range(1, maxh as u64) as usize };
+            let mut v: Vec<u64> = (0..k)
+                .map(|_| {
+                    if r.chance(1, 10) {
+                        // large hashes: exercises the little-endian key order
+                        u64::MAX - r.below(4)
+                    } else if r.chance(1, 10) {
+                        (1u64 << 32) + r.below(4)
+                    } else {
+                        1 + r.below(universe)
+                    }
+                })
+                .collect();
+            v.sort_unstable();
+            v.dedup();
+            v
+        })
+        .collect()
+}
+
+fn rand_query(r: &mut Rng, c: &[Vec<u64>]) -> Vec<u64> {
+    let mut q: Vec<u64> = c.iter().flatten().copied().filter(|_| r.chance(2, 3)).collect();
+    for _ in 0..3 {
+        q.push(1000 + r.below(50));
+    }
+    q.sort_unstable();
+    q.dedup();
+    q
+}
+
+fn header(o: &mut Out, c: &[Vec<u64>], base: usize, via: &str, threads: usize, how: &str, q: &[u64]) {
+    o.case(&format!(
+        "coll={} base={} via={} threads={} how={} q={}",
+        show_coll(c),
+        base,
+        via,
+        threads,
+        how,
+        show_nats(q.iter().copied())
+    ));
+}
+
+const REOPEN_TOKENS: [&str; 6] = ["flush", "close", "openro", "openrw", "intern", "move"];
+
+fn rand_seq(r: &mut Rng, len: usize) -> String {
+    (0..len).map(|_| *r.pick(&REOPEN_TOKENS)).collect::<Vec<_>>().join(",")
+}
+
+fn gen(a: &Args) {
+    let mut r = Rng::new(a.seed);
+    let mut o = Out::new();
+    let thorough = a.tier == "thorough";
+    let hows = ["kill", "abort", "exit"];
+
+    // stream 1: EVERY kill point of small collections, one thread (deterministic numbering),
+    // each followed by the re-run and the full observation
+    let ncoll = if thorough { 20 } else { 3 };
+    for ci in 0..ncoll {
+        let nd = r.range(3, 5) as usize;
+        let maxh = if thorough { 12 } else { 5 };
+        let c = rand_coll(&mut r, nd, maxh, 12);
+        let q = rand_query(&mut r, &c);
+        // (base, via): from scratch / resume of an extension through create / through open+update
+        let (base, via) = match ci % 3 {
+            0 => (0, "create"),
+            1 => (r.range(1, nd as u64 - 1) as usize, "update"),
+            _ => (r.range(1, nd as u64 - 1) as usize, "create"),
+        };
+        let total = points(&c, base);
+        for n in 0..=total {
+            header(&mut o, &c, base, via, 1, hows[(n + ci) % 3], &q);
+            o.op(&format!("crash {}", n));
+            o.op(if n % 4 == 3 { "resumec" } else { "resume" });
+        }
+        // kills while compaction is running
+        for d in [0u64, 200, 2000] {
+            header(&mut o, &c, base, via, 1, "kill", &q);
+            o.op(&format!("crashc {}", d));
+            o.op("resume");
+        }
+    }
+
+    // stream 2: repeated kills (the second, third … kill happens during the resume)
+    let nrep = if thorough { 400 } else { 14 };
+    for i in 0..nrep {
+        let nd = r.range(3, 5) as usize;
+        let c = rand_coll(&mut r, nd, if thorough { 12 } else { 6 }, 12);
+        let q = rand_query(&mut r, &c);
+        let (base, via) = match i % 3 {
+            0 => (0, "create"),
+            1 => (r.range(1, nd as u64 - 1) as usize, "update"),
+            _ => (r.range(0, nd as u64 - 1) as usize, "create"),
+        };
+        let total = points(&c, base) as u64;
+        header(&mut o, &c, base, via, 1, hows[i % 3], &q);
+        let rounds = r.range(2, 4);
+        for _ in 0..rounds {
+            // later runs have fewer points: bias towards small numbers, sometimes beyond the end
+            let n = if r.chance(1, 6) { total + 1 } else { r.below(total) / r.range(1, 3) };
+            o.op(&format!("crash {}", n));
+        }
+        o.op(if i % 2 == 0 { "resume" } else { "resumec" });
+        if i % 3 == 0 {
+            o.op(&format!("reopen {}", rand_seq(&mut r, 3)));
+        }
+    }
+
+    // stream 3: four threads — the interleaving is not determined, so the crash state is judged by
+    // the marker invariants and the final state must still be the clean build
+    let nmt = if thorough { 300 } else { 12 };
+    for i in 0..nmt {
+        let nd = r.range(3, 6) as usize;
+        let c = rand_coll(&mut r, nd, 10, 14);
+        let q = rand_query(&mut r, &c);
+        let (base, via) = if i % 2 == 0 { (0, "create") } else { (r.range(1, nd as u64 - 1) as usize, "update") };
+        let total = points(&c, base) as u64;
+        header(&mut o, &c, base, via, 4, hows[i % 3], &q);
+        o.op(&format!("crash {}", r.below(total)));
+        if r.chance(1, 2) {
+            o.op(&format!("crash {}", r.below(total) / 2));
+        }
+        o.op("resume");
+    }
+
+    // stream 4: flush / close / open(ro|rw) / internalize / move sequences on a completed index
+    let nre = if thorough { 600 } else { 40 };
+    for i in 0..nre {
+        let nd = r.range(1, 5) as usize;
+        let c = rand_coll(&mut r, nd, 8, 12);
+        let q = rand_query(&mut r, &c);
+        let (base, via) = if i % 4 == 3 { (r.range(1, nd as u64) as usize - 1, "update") } else { (0, "create") };
+        header(&mut o, &c, base, via, 1, "kill", &q);
+        o.op("resume");
+        let k = r.range(1, 3);
+        for _ in 0..k {
+            let len = r.range(1, 6) as usize;
+            o.op(&format!("reopen {}", rand_seq(&mut r, len)));
+        }
+        if r.chance(1, 3) {
+            // extend / re-run after the reopen sequence: a completed index is a fixed point
+            o.op("resume");
+        }
+    }
+}
+
+// ------------------------------------------------------------------------------------ exec
+
+struct St {
+    // declared first: the open index is dropped before its directory is removed
+    handle: Option<(RevIndex, bool)>,
+    tmp: Option<tempfile::TempDir>,
+    coll: Vec<Vec<u64>>,
+    sigs: Vec<Signature>,
+    paths: Vec<Utf8PathBuf>,
+    base: usize,
+    via: String,
+    threads: usize,
+    how: String,
+    q: Vec<u64>,
+    idx: PathBuf,
+    sig_dir: PathBuf,
+    moves: u32,
+}
+
+fn new_state() -> St {
+    St {
+        tmp: None,
+        coll: vec![],
+        sigs: vec![],
+        paths: vec![],
+        base: 0,
+        via: "create".into(),
+        threads: 1,
+        how: "kill".into(),
+        q: vec![],
+        idx: PathBuf::new(),
+        sig_dir: PathBuf::new(),
+        handle: None,
+        moves: 0,
+    }
+}
+
+fn copy_dir(from: &Path, to: &Path) {
+    std::fs::create_dir_all(to).unwrap();
+    for e in std::fs::read_dir(from).unwrap() {
+        let e = e.unwrap();
+        let p = e.path();
+        if p.is_dir() {
+            copy_dir(&p, &to.join(e.file_name()));
+        } else if e.file_name() != "LOCK" {
+            std::fs::copy(&p, to.join(e.file_name())).unwrap();
+        }
+    }
+}
+
+/// the durable state, read through a scratch open (the crate's own column families and merge
+/// operator) of a COPY of the directory, so that the directory itself is next opened by the code
+/// under test
+struct Scan {
+    h: BTreeMap<u64, Vec<u32>>,
+    p: Option<Vec<u32>>,
+    version: Option<u8>,
+    manifest_rows: Option<usize>,
+    spec: Option<String>,
+    nstorage: usize,
+}
+
+fn scan(st: &St) -> Scan {
+    let copy = st.tmp.as_ref().unwrap().path().join("obs-copy");
+    let _ = std::fs::remove_dir_all(&copy);
+    if !st.idx.exists() {
+        return Scan { h: BTreeMap::new(), p: None, version: None, manifest_rows: None, spec: None, nstorage: 0 };
+    }
+    copy_dir(&st.idx, &copy);
+    let out = {
+        let db = vh::open_scratch_db(&copy);
+        let cf = db.cf_handle(vh::HASHES_CF).unwrap();
+        let mut h = BTreeMap::new();
+        for item in db.iterator_cf(&cf, rocksdb::IteratorMode::Start) {
+            let (k, v) = item.unwrap();
+            let key = u64::from_le_bytes(k[..8].try_into().unwrap());
+            let mut ids: Vec<u32> = vh::datasets_from_slice(&v).unwrap().into_iter().collect();
+            ids.sort_unstable();
+            h.insert(key, ids);
+        }
+        let cfm = db.cf_handle(vh::METADATA_CF).unwrap();
+        let p = db.get_cf(&cfm, vh::PROCESSED_KEY).unwrap().map(|v| {
+            let mut ids: Vec<u32> = vh::datasets_from_slice(&v).unwrap().into_iter().collect();
+            ids.sort_unstable();
+            ids
+        });
+        let version = db.get_cf(&cfm, vh::VERSION_KEY).unwrap().map(|v| v[0]);
+        let manifest_rows = db.get_cf(&cfm, vh::MANIFEST_KEY).unwrap().map(|v| {
+            let text = String::from_utf8_lossy(&v).to_string();
+            text.lines().filter(|l| !l.starts_with('#') && !l.trim().is_empty()).count().saturating_sub(1)
+        });
+        let spec = db
+            .get_cf(&cfm, vh::STORAGE_SPEC_KEY)
+            .unwrap()
+            .map(|v| String::from_utf8_lossy(&v).to_string());
+        let cfs = db.cf_handle(vh::STORAGE_CF).unwrap();
+        let nstorage = db.iterator_cf(&cfs, rocksdb::IteratorMode::Start).count();
+        Scan { h, p, version, manifest_rows, spec, nstorage }
+    };
+    std::fs::remove_dir_all(&copy).unwrap();
+    out
+}
+
+fn show_scan(s: &Scan) -> String {
+    let h = if s.h.is_empty() {
+        "-".to_string()
+    } else {
+        s.h.iter()
+            .map(|(k, ids)| format!("{}:{}", k, show_nats(ids.iter().map(|x| *x as u64))))
+            .collect::<Vec<_>>()
+            .join(";")
+    };
+    let p = match &s.p {
+        None => "none".to_string(),
+        Some(ids) => show_nats(ids.iter().map(|x| *x as u64)),
+    };
+    format!(
+        "H={} P={} M={}/{}/{} X={}",
+        h,
+        p,
+        s.version.map(|v| v.to_string()).unwrap_or("-".into()),
+        s.manifest_rows.map(|v| v.to_string()).unwrap_or("-".into()),
+        s.spec.clone().unwrap_or("-".into()),
+        s.nstorage
+    )
+}
+
+/// T-marker on a crash state whose interleaving is not known
+fn invariants(st: &St, s: &Scan) -> String {
+    let n = st.coll.len();
+    if let Some(p) = &s.p {
+        if p.is_empty() {
+            return "inv-bad processed-empty".into();
+        }
+        for &d in p {
+            if d as usize >= n {
+                return format!("inv-bad processed-unknown {}", d);
+            }
+            for h in &st.coll[d as usize] {
+                if !s.h.get(h).map(|ids| ids.contains(&d)).unwrap_or(false) {
+                    return format!("inv-bad marker-without-hash {} {}", d, h);
+                }
+            }
+        }
+    }
+    for (h, ids) in &s.h {
+        if ids.is_empty() {
+            return format!("inv-bad empty-entry {}", h);
+        }
+        for &d in ids {
+            if d as usize >= n || !st.coll[d as usize].contains(h) {
+                return format!("inv-bad spurious {} {}", h, d);
+            }
+        }
+    }
+    if let Some(rows) = s.manifest_rows {
+        let have = s.p.clone().unwrap_or_default();
+        for d in 0..rows {
+            if !have.contains(&(d as u32)) {
+                return format!("inv-bad manifest-row-unprocessed {}", d);
+            }
+        }
+    }
+    "inv-ok".into()
+}
+
+fn answers(st: &St, idx: &RevIndex) -> String {
+    let query = make_mh(&st.q, None, 1);
+    let counter = idx.counter_for_query(&query);
+    let mut c: Vec<(u32, usize)> = counter.iter().map(|(k, v)| (*k, *v)).collect();
+    c.sort_unstable();
+    let cs = if c.is_empty() {
+        "-".to_string()
+    } else {
+        c.iter().map(|(k, v)| format!("{}:{}", k, v)).collect::<Vec<_>>().join(",")
+    };
+    let (counter, qc, h2c) = idx.prepare_gather_counters(&query);
+    let gs = match idx.gather(counter, qc, h2c, 0, &query, None) {
+        Ok(rs) => {
+            if rs.is_empty() {
+                "-".to_string()
+            } else {
+                rs.iter()
+                    .map(|g| format!("{}:{}:{}", g.name(), g.intersect_bp(), g.unique_intersect_bp()))
+                    .collect::<Vec<_>>()
+                    .join(",")
+            }
+        }
+        Err(e) => format!("err:{:?}", e).replace(' ', "_"),
+    };
+    let n = idx.collection().len();
+    let mut ss = vec![];
+    for i in 0..n {
+        match idx.collection().sig_for_dataset(i as u32) {
+            Ok(sig) => {
+                let sig: Signature = sig.into();
+                let mins: Vec<u64> = match &sig.sketches()[0] {
+                    Sketch::MinHash(mh) => mh.mins(),
+                    _ => vec![],
+                };
+                let md5ok = i < st.sigs.len() && sig.md5sum() == st.sigs[i].md5sum();
+                ss.push(format!("{}:{}:{}", sig.name(), show_nats(mins), if md5ok { "md5ok" } else { "md5BAD" }));
+            }
+            Err(_) => ss.push("err".into()),
+        }
+    }
+    let ss = if ss.is_empty() { "-".to_string() } else { ss.join(";") };
+    format!("C={} G={} S={}", cs, gs, ss)
+}
+
+fn observe(st: &mut St) -> String {
+    let sc = show_scan(&scan(st));
+    let ans = match &st.handle {
+        Some((idx, _)) => answers(st, idx),
+        None => match RevIndex::open(&st.idx, true, None) {
+            Ok(idx) => answers(st, &idx),
+            Err(_) => "open-err".into(),
+        },
+    };
+    format!("{} {}", sc, ans)
+}
+
+fn spawn_child(st: &St, kill_at: &str, delay: Option<u64>) -> String {
+    let exe = std::env::current_exe().unwrap();
+    let mut cmd = std::process::Command::new(exe);
+    cmd.arg("child")
+        .arg(&st.idx)
+        .arg(&st.sig_dir)
+        .arg(st.coll.len().to_string())
+        .arg(&st.via)
+        .arg(kill_at)
+        .arg(st.threads.to_string())
+        .arg(&st.how);
+    if let Some(d) = delay {
+        cmd.arg(d.to_string());
+    }
+    let out = cmd.output().unwrap();
+    use std::os::unix::process::ExitStatusExt;
+    let status = out.status;
+    if status.success() {
+        "done".into()
+    } else if status.signal() == Some(libc::SIGKILL) || status.signal() == Some(libc::SIGABRT) || status.code() == Some(137) {
+        "killed".into()
+    } else {
+        format!("child-failed:{:?}", status.code())
+    }
+}
+
+/// the build under test, in this process (no hook callback, the process-wide rayon pool)
+fn build_in_process(st: &St) -> Result<(), String> {
+    let coll = fs_collection(&st.paths);
+    if st.via == "update" {
+        let idx = RevIndex::open(&st.idx, false, None).map_err(|e| format!("err-open:{:?}", e))?;
+        let idx = idx.update(coll).map_err(|e| format!("err-update:{:?}", e))?;
+        drop(idx);
+    } else {
+        let idx = RevIndex::create(&st.idx, coll, false).map_err(|e| format!("err-create:{:?}", e))?;
+        drop(idx);
+    }
+    Ok(())
+}
+
+fn setup(st: &mut St, ws: &[&str]) {
+    for w in &ws[2..] {
+        let (k, v) = w.split_once('=').unwrap();
+        match k {
+            "coll" => st.coll = v.split('/').map(parse_nats).collect(),
+            "base" => st.base = v.parse().unwrap(),
+            "via" => st.via = v.into(),
+            "threads" => st.threads = v.parse().unwrap(),
+            "how" => st.how = v.into(),
+            "q" => st.q = parse_nats(v),
+            _ => {}
+        }
+    }
+    let tmp = scratch_dir();
+    st.sig_dir = tmp.path().join("sigs");
+    st.idx = tmp.path().join("index");
+    st.sigs = st
+        .coll
+        .iter()
+        .enumerate()
+        .map(|(i, d)| make_sig(&format!("d{}", i), d, None, 1))
+        .collect();
+    st.paths = write_sig_files(&st.sig_dir, &st.sigs);
+    st.tmp = Some(tmp);
+    if st.base > 0 || st.via == "update" {
+        let idx = RevIndex::create(&st.idx, fs_collection(&st.paths[..st.base]), false).unwrap();
+        drop(idx);
+    }
+}
+
+fn reopen(st: &mut St, seq: &str) -> String {
+    let mut res = vec![];
+    for tok in seq.split(',') {
+        let r: String = match tok {
+            "flush" => match &st.handle {
+                Some((idx, _)) => match idx.flush() {
+                    Ok(()) => "ok".into(),
+                    Err(_) => "err".into(),
+                },
+                None => "closed".into(),
+            },
+            "close" => {
+                if st.handle.take().is_some() {
+                    "ok".into()
+                } else {
+                    "closed".into()
+                }
+            }
+            "openro" | "openrw" => {
+                if st.handle.is_some() {
+                    "already".into()
+                } else {
+                    let ro = tok == "openro";
+                    match RevIndex::open(&st.idx, ro, None) {
+                        Ok(idx) => {
+                            st.handle = Some((idx, ro));
+                            "ok".into()
+                        }
+                        Err(_) => "err".into(),
+                    }
+                }
+            }
+            "intern" => match &mut st.handle {
+                Some((idx, _)) => match idx.internalize_storage() {
+                    Ok(()) => "ok".into(),
+                    Err(_) => "err".into(),
+                },
+                None => "closed".into(),
+            },
+            "move" => {
+                if st.handle.is_some() {
+                    "open".into()
+                } else {
+                    st.moves += 1;
+                    let to = st.tmp.as_ref().unwrap().path().join(format!("moved-{}", st.moves)).join("index");
+                    std::fs::create_dir_all(to.parent().unwrap()).unwrap();
+                    std::fs::rename(&st.idx, &to).unwrap();
+                    st.idx = to;
+                    "ok".into()
+                }
+            }
+            _ => "bad-token".into(),
+        };
+        res.push(r);
+    }
+    format!("{}|{}", res.join(","), observe(st))
+}
+
+fn step(st: &mut St, ws: &[&str]) -> String {
     match ws[0] {
-        "case" => "ok".into(),
+        "case" => {
+            setup(st, ws);
+            "ok".into()
+        }
+        "crash" | "crashc" => {
+            st.handle = None;
+            let r = if ws[0] == "crash" {
+                spawn_child(st, ws[1], None)
+            } else {
+                spawn_child(st, "inf", Some(ws[1].parse().unwrap()))
+            };
+            if r.starts_with("child-failed") {
+                return r;
+            }
+            let s = scan(st);
+            if st.threads == 1 || ws[0] == "crashc" {
+                show_scan(&s)
+            } else {
+                invariants(st, &s)
+            }
+        }
+        "resume" => {
+            st.handle = None;
+            match build_in_process(st) {
+                Ok(()) => observe(st),
+                Err(e) => e.replace(' ', "_"),
+            }
+        }
+        "resumec" => {
+            st.handle = None;
+            let r = spawn_child(st, "inf", None);
+            if r != "done" {
+                return format!("resume-{}", r);
+            }
+            observe(st)
+        }
+        "obs" => observe(st),
+        "reopen" => reopen(st, ws[1]),
         _ => "bad-op".into(),
     }
 }
@@ -17,7 +588,8 @@ fn main() {
     let a = args();
     match a.mode.as_str() {
         "gen" => gen(&a),
-        "exec" => exec_loop(|| (), step),
+        "exec" => exec_loop(new_state, step),
+        "child" => child::child_main(&a.rest),
         _ => panic!("mode"),
     }
 }
